@@ -152,3 +152,39 @@ Proof.
   intros cfg t0 evs Hsel Hfr Hbg. apply (state_components_from cfg t0 evs [] mon0 empty_dump); try assumption.
   intros [o [what [[] _]]].
 Qed.
+
+(* ---- the general scheme: an invariant of (events so far, monitor state, previous dump) ------------------------------------------------------ *)
+Definition good (cfg : config) (t0 : Z) (l : list (event * list (nat * wref))) : Prop :=
+  selectors_in_range (init cfg t0) l /\ fresh_calls [] l /\ bg_scripts_ok l.
+
+Lemma good_prefix : forall cfg t0 l1 l2, good cfg t0 (l1 ++ l2) -> good cfg t0 l1.
+Proof.
+  intros cfg t0 l1 l2 [A [B C]]. split; [exact (proj1 (proj1 (selectors_in_range_app _ _ _) A))|]. split; [exact (fresh_calls_app _ _ _ B)|].
+  intros e He. apply C. apply in_or_app. left. exact He.
+Qed.
+
+Lemma trace_sub_generic : forall cfg t0 sel (Inv : list (event * list (nat * wref)) -> mon -> dump -> Prop),
+  (forall pfx eh m pre, good cfg t0 (pfx ++ [eh]) -> ~ panicked (snd (run (init cfg t0) (pfx ++ [eh]))) -> Inv pfx m pre ->
+     let s := fst (run (init cfg t0) pfx) in let o := snd (step s eh) in let d := observe (fst (step s eh)) in
+     forallb (fun i => String.eqb (nth i (p_components cfg t0 m pre (fst eh) o d) ""%string) "") sel = true /\
+     Inv (pfx ++ [eh]) (pm_final cfg d (fst eh) o m) d) ->
+  forall evs pfx m pre, good cfg t0 (pfx ++ evs) -> ~ panicked (snd (run (init cfg t0) pfx)) -> Inv pfx m pre ->
+  panicked (snd (run (fst (run (init cfg t0) pfx)) evs)) \/
+  trace_sub_from sel cfg t0 m pre (model_trace_from (fst (run (init cfg t0) pfx)) evs) = true.
+Proof.
+  intros cfg t0 sel Inv Hstep. induction evs as [|eh evs IH]; intros pfx m pre Hg Hnp HI; [right; reflexivity|].
+  set (s := fst (run (init cfg t0) pfx)) in *. cbn [model_trace_from trace_sub_from].
+  assert (Eapp : pfx ++ eh :: evs = (pfx ++ [eh]) ++ evs) by (rewrite <- app_assoc; reflexivity).
+  assert (Es' : fst (run (init cfg t0) (pfx ++ [eh])) = fst (step s eh)) by apply run_snoc_fst.
+  assert (Eo' : snd (run (init cfg t0) (pfx ++ [eh])) = snd (run (init cfg t0) pfx) ++ [snd (step s eh)]) by apply run_snoc_snd.
+  destruct (classic_panic (snd (step s eh))) as [[what Hp]|Hno].
+  { left. cbn [run]. destruct (step s eh) as [s1 o]. destruct (run s1 evs) as [s2 os]. cbn [snd] in *. exists o, what. split; [left; reflexivity|exact Hp]. }
+  assert (Hnp' : ~ panicked (snd (run (init cfg t0) (pfx ++ [eh])))).
+  { rewrite Eo'. intro Hp. apply panicked_app in Hp. destruct Hp as [Hp|[o [what [[<-|[]] Hw]]]]; [exact (Hnp Hp)|exact (Hno what Hw)]. }
+  rewrite Eapp in Hg. pose proof (good_prefix _ _ _ _ Hg) as Hg1.
+  destruct (Hstep pfx eh m pre Hg1 Hnp' HI) as [Hc HI']. cbv zeta in Hc, HI'. fold s in Hc, HI'.
+  destruct (IH (pfx ++ [eh]) _ _ Hg Hnp' HI') as [Hp|Hrest].
+  { left. rewrite Es' in Hp. cbn [run]. destruct (step s eh) as [s1 o]. cbn [fst] in Hp. destruct (run s1 evs) as [s2 os]. cbn [snd] in *.
+    destruct Hp as [o' [what [Ho Hw]]]. exists o', what. split; [right; exact Ho|exact Hw]. }
+  right. rewrite Es' in Hrest. rewrite Hrest, andb_true_r. exact Hc.
+Qed.
